@@ -478,4 +478,155 @@ theorem runs_requestData (ext : Ext) (s : Sock) (hudp : s.tcp = false) (engine :
   rw [he]
   exact h.retry retries
 
+/-! ### the three sections and the whole query -/
+
+/-- kind byte and body of the `A2S_INFO` reply the SPEC prescribes for this engine -/
+def infoKind (e : Engine) : Nat :=
+  match e with
+  | .goldSrc true => 0x6D
+  | _ => 0x49
+
+def infoBody (cfg : Config) (st : State) : Bytes :=
+  match cfg.engine with
+  | .goldSrc true => encGoldSrcInfo cfg.address st.info
+  | _ => encSourceInfo cfg.upper st.info
+
+theorem infoPacket_eq (cfg : Config) (st : State) : infoPacket cfg st = reply (infoKind cfg.engine) (infoBody cfg st) := by
+  obtain ⟨engine, g, u, a, xi, xp, xr⟩ := cfg
+  cases engine with
+  | source ids => rfl
+  | goldSrc f => cases f <;> rfl
+
+theorem infoKind_ok (e : Engine) : infoKind e < 256 ∧ infoKind e ≠ 0x41 := by
+  cases e with
+  | source ids => exact ⟨show 0x49 < 256 by decide, show 0x49 ≠ 0x41 by decide⟩
+  | goldSrc f => cases f <;> exact ⟨by decide, by decide⟩
+
+theorem wf_parts (cfg : Config) (st : State) (h : wf cfg st = true) :
+    (match cfg.engine with
+      | .goldSrc true => wfGoldSrcInfo cfg.address st.info
+      | e => wfSourceInfo e st.info) = true
+    ∧ st.players.length < 256 ∧ (∀ p ∈ st.players, wfPlayer (cfg.engine == Engine.new 2400) p = true)
+    ∧ st.rules.length < 65536 ∧ (∀ r ∈ st.rules, okStr r.1 = true ∧ okStr r.2 = true) ∧ distinctKeys st.rules = true := by
+  simp only [wf, Bool.and_eq_true, decide_eq_true_eq, List.all_eq_true] at h
+  obtain ⟨⟨⟨⟨⟨h1, h2⟩, h3⟩, h4⟩, h5⟩, h6⟩ := h
+  exact ⟨h1, h2, h3, h4, h5, h6⟩
+
+/-- C02's info theorems, for the layout the engine selects -/
+theorem run_parseInfo (cfg : Config) (st : State) (hwf : wf cfg st = true) :
+    (parseInfo cfg.engine).run (infoBody cfg st) = .ok st.info := by
+  have h := (wf_parts cfg st hwf).1
+  obtain ⟨engine, g, u, a, xi, xp, xr⟩ := cfg
+  cases engine with
+  | source ids => exact (decodesEnd_sourceInfo (.source ids) u st.info h).run
+  | goldSrc f =>
+    cases f with
+    | true => exact (decodes_goldSrcInfo a st.info h).run
+    | false => exact (decodesEnd_sourceInfo (.goldSrc false) u st.info h).run
+
+theorem runs_getServerInfo (ext : Ext) (s : Sock) (hudp : s.tcp = false) (retries : Nat) (cfg : Config) (st : State)
+    (hwf : wf cfg st = true) (hx : wfTransport cfg.engine cfg.info.transport = true) (ai : List Bytes)
+    (hai : ai.Perm (infoDatagrams cfg st)) (hfit : ∀ d ∈ exchangeAs cfg.info ai, d.length ≤ PACKET_SIZE)
+    (q : List Delivery) :
+    Runs s (getServerInfo ext s retries cfg.engine) st.info ((exchangeAs cfg.info ai).map .data ++ q) q := by
+  unfold getServerInfo
+  rw [infoDatagrams, infoPacket_eq] at hai
+  exact Runs.bind (runs_requestData ext s hudp cfg.engine 0 retries .info (infoKind cfg.engine) (infoKind_ok _).1
+    (infoKind_ok _).2 (infoBody cfg st) cfg.info hx ai hai hfit q) (Runs.parse s (run_parseInfo cfg st hwf) q)
+
+/-- what a section contributes to the script / to the response under a gathering toggle -/
+def sectionAs (t : Toggle) (x : Exchange) (arrival : List Bytes) : List Bytes :=
+  if t == .skip then [] else exchangeAs x arrival
+
+theorem runs_playersSection (ext : Ext) (s : Sock) (hudp : s.tcp = false) (retries : Nat) (cfg : Config) (st : State)
+    (hwf : wf cfg st = true) (t : Toggle) (hx : (t == .skip || wfTransport cfg.engine cfg.players.transport) = true)
+    (ap : List Bytes) (hap : ap.Perm (playersDatagrams cfg st))
+    (hfit : ∀ d ∈ sectionAs t cfg.players ap, d.length ≤ PACKET_SIZE) (q : List Delivery) :
+    Runs s (maybeGather t (getServerPlayers ext s retries cfg.engine st.info.protocolVersion))
+      (if t == .skip then none else some st.players) ((sectionAs t cfg.players ap).map .data ++ q) q := by
+  obtain ⟨_, hpn, hpl, _, _, _⟩ := wf_parts cfg st hwf
+  by_cases ht : t = .skip
+  · subst ht
+    exact Runs.pure s _ q
+  · have hb : (t == Toggle.skip) = false := by simpa using ht
+    simp only [sectionAs, hb, Bool.false_or, Bool.false_eq_true, ↓reduceIte] at hx hfit ⊢
+    refine Runs.maybeGather ?_ t ht
+    unfold getServerPlayers
+    exact Runs.bind (runs_requestData ext s hudp cfg.engine _ retries .players 0x44 (by decide) (by decide)
+      (encPlayers st.players) cfg.players hx ap hap hfit q)
+      (Runs.parse s (decodes_players cfg.engine st.players hpn hpl).run q)
+
+theorem runs_rulesSection (ext : Ext) (s : Sock) (hudp : s.tcp = false) (retries : Nat) (cfg : Config) (st : State)
+    (hwf : wf cfg st = true) (t : Toggle) (hx : (t == .skip || wfTransport cfg.engine cfg.rules.transport) = true)
+    (ar : List Bytes) (har : ar.Perm (rulesDatagrams cfg st))
+    (hfit : ∀ d ∈ sectionAs t cfg.rules ar, d.length ≤ PACKET_SIZE) (q : List Delivery) :
+    Runs s (maybeGather t (getServerRules ext s retries cfg.engine st.info.protocolVersion))
+      (if t == .skip then none else some (expectedRules cfg.engine st.rules))
+      ((sectionAs t cfg.rules ar).map .data ++ q) q := by
+  obtain ⟨_, _, _, hrn, hrl, hrd⟩ := wf_parts cfg st hwf
+  by_cases ht : t = .skip
+  · subst ht
+    exact Runs.pure s _ q
+  · have hb : (t == Toggle.skip) = false := by simpa using ht
+    simp only [sectionAs, hb, Bool.false_or, Bool.false_eq_true, ↓reduceIte] at hx hfit ⊢
+    refine Runs.maybeGather ?_ t ht
+    unfold getServerRules
+    exact Runs.bind (runs_requestData ext s hudp cfg.engine _ retries .rules 0x45 (by decide) (by decide)
+      (encRules st.rules) cfg.rules hx ar har hfit q)
+      (Runs.parse s (decodes_rules cfg.engine st.rules hrn hrl hrd).run q)
+
+theorem scriptAs_sections (cfg : Config) (ai ap ar : List Bytes) :
+    (scriptAs cfg ai ap ar).map Delivery.data
+      = (exchangeAs cfg.info ai).map .data ++ ((sectionAs cfg.gather.players cfg.players ap).map .data ++
+          ((sectionAs cfg.gather.rules cfg.rules ar).map .data ++ [])) := by
+  simp [scriptAs, sectionAs, List.append_assoc]
+
+/-- the query after the socket is open, against everything a conforming server sends -/
+theorem queryBody_whole (ext : Ext) (s : Sock) (hudp : s.tcp = false) (retries : Nat) (cfg : Config) (st : State)
+    (hwf : wf cfg st = true) (hx : wfExchanges cfg = true) (ai ap ar : List Bytes)
+    (hai : ai.Perm (infoDatagrams cfg st)) (hap : ap.Perm (playersDatagrams cfg st))
+    (har : ar.Perm (rulesDatagrams cfg st)) (hfit : fits (scriptAs cfg ai ap ar) = true)
+    (w : Net) (hw : At s w ((scriptAs cfg ai ap ar).map .data)) :
+    (queryBody ext s cfg.engine cfg.gather retries w).1 = expected cfg st := by
+  simp only [wfExchanges, Bool.and_eq_true] at hx
+  obtain ⟨⟨hxi, hxp⟩, hxr⟩ := hx
+  have hfit' : ∀ d ∈ scriptAs cfg ai ap ar, d.length ≤ PACKET_SIZE := by
+    simpa [fits, List.all_eq_true] using hfit
+  have hfi : ∀ d ∈ exchangeAs cfg.info ai, d.length ≤ PACKET_SIZE := fun d hd =>
+    hfit' d (by simp only [scriptAs, List.mem_append]; exact Or.inl (Or.inl hd))
+  have hfp : ∀ d ∈ sectionAs cfg.gather.players cfg.players ap, d.length ≤ PACKET_SIZE := fun d hd =>
+    hfit' d (by simp only [scriptAs, List.mem_append]; exact Or.inl (Or.inr hd))
+  have hfr : ∀ d ∈ sectionAs cfg.gather.rules cfg.rules ar, d.length ≤ PACKET_SIZE := fun d hd =>
+    hfit' d (by simp only [scriptAs, List.mem_append]; exact Or.inr hd)
+  rw [scriptAs_sections] at hw
+  obtain ⟨w1, h1, hw1⟩ := runs_getServerInfo ext s hudp retries cfg st hwf hxi ai hai hfi _ w hw
+  unfold queryBody
+  rw [Q.bind_apply, h1]
+  simp only [expected]
+  by_cases happ : appIdOk cfg.engine cfg.gather st.info.appid = true
+  · simp only [happ, Bool.not_true, Bool.false_eq_true, ↓reduceIte]
+    have hrest := Runs.bind (runs_playersSection ext s hudp retries cfg st hwf cfg.gather.players hxp ap hap hfp _)
+      (g := fun players => maybeGather cfg.gather.rules (getServerRules ext s retries cfg.engine st.info.protocolVersion)
+        >>= fun rules => pure (Response.mk st.info players rules))
+      (Runs.bind (runs_rulesSection ext s hudp retries cfg st hwf cfg.gather.rules hxr ar har hfr [])
+        (Runs.pure s _ []))
+    obtain ⟨w3, h3, _⟩ := hrest w1 hw1
+    exact congrArg Prod.fst h3
+  · have hf' : appIdOk cfg.engine cfg.gather st.info.appid = false := by simpa using happ
+    simp [hf', Q.fail]
+
+/-- the whole query from the initial state: one socket, with the server's datagrams queued on it -/
+theorem query_whole (ext : Ext) (port retries : Nat) (cfg : Config) (st : State)
+    (hwf : wf cfg st = true) (hx : wfExchanges cfg = true) (ai ap ar : List Bytes)
+    (hai : ai.Perm (infoDatagrams cfg st)) (hap : ap.Perm (playersDatagrams cfg st))
+    (har : ar.Perm (rulesDatagrams cfg st)) (hfit : fits (scriptAs cfg ai ap ar) = true) :
+    (query ext port cfg.engine cfg.gather retries
+        (Net.init [.opened ((scriptAs cfg ai ap ar).map .data)] [])).1 = expected cfg st := by
+  rw [query_eq, Q.bind_apply]
+  have ho : openSock false port (Net.init [.opened ((scriptAs cfg ai ap ar).map .data)] [])
+      = (.ok ⟨0, port, false⟩, ⟨[], [(scriptAs cfg ai ap ar).map .data], [], [.opened 0 false port false]⟩) := rfl
+  rw [ho]
+  exact queryBody_whole ext ⟨0, port, false⟩ rfl retries cfg st hwf hx ai ap ar hai hap har hfit _
+    ⟨rfl, by simp, by simp⟩
+
 end Gd.Valve
